@@ -170,6 +170,51 @@ def check(run):
                     continue
                 run.violation("%s: %s" % (sql[:160], d), {"kind": "impl-vs-sqlite", "db": path, "table": t, "sql": sql, "indexes": idx, "diff": d, "sqlittle": f[1], "sqlite": {k: v for k, v in sq.items()}})
             run.nontrivial(sql)
+    # the interpretation of a definition does not depend on definitions interpreted earlier in the process: pairs of databases
+    # whose tables have the SAME names and the SAME index / constraint texts but other collations / orders on the columns
+    # they refer to, read one after the other by one process
+    twins = [
+        ("CREATE TABLE h1(name TEXT COLLATE NOCASE, v)", "CREATE TABLE h1(name TEXT, v)", ["CREATE INDEX h1_i ON h1(name)"]),
+        ("CREATE TABLE h2(a TEXT COLLATE RTRIM, b TEXT COLLATE NOCASE)", "CREATE TABLE h2(a TEXT COLLATE NOCASE, b TEXT)", ["CREATE INDEX h2_i ON h2(b, a DESC)", "CREATE UNIQUE INDEX h2_u ON h2(a)"]),
+        ("CREATE TABLE h3(k TEXT COLLATE NOCASE, n, PRIMARY KEY(k, n)) WITHOUT ROWID", "CREATE TABLE h3(k TEXT, n, PRIMARY KEY(k, n)) WITHOUT ROWID", ["CREATE INDEX h3_n ON h3(n)"]),
+        ("CREATE TABLE h4(id INTEGER, x TEXT COLLATE RTRIM, PRIMARY KEY(id COLLATE nocase)) WITHOUT ROWID", "CREATE TABLE h4(id TEXT COLLATE RTRIM, x, PRIMARY KEY(id COLLATE nocase)) WITHOUT ROWID", ["CREATE INDEX h4_x ON h4(x)"]),
+        ("CREATE TABLE h5(a COLLATE NOCASE, b, UNIQUE(a, b))", "CREATE TABLE h5(b COLLATE RTRIM, a, UNIQUE(a, b))", ["CREATE INDEX h5_i ON h5(a)"]),
+    ]
+    tl2, tviews = [], {}
+    for side in (0, 1):
+        path = os.path.join(wd, "twin%d.db" % side)
+        conn = sqlfmt.new_db(path, 1024)
+        for a, b, idx in twins:
+            conn.execute((a, b)[side])
+            for i_ in idx:
+                conn.execute(i_)
+        for a, b, idx in twins:
+            t = a.split("(")[0].split()[-1]
+            tviews[(side, t)] = (sqlite_schema(conn, t), (a, b)[side], idx)
+        conn.close()
+    for order in ((0, 1), (1, 0)):
+        for side in order:
+            tl2.append(("o%d%d/open%d" % (order + (side,))[:3] if False else ("o%d%d/open%d" % (order[0], order[1], side), "db %s" % os.path.join(wd, "twin%d.db" % side))))
+            for a, b, idx in twins:
+                t = a.split("(")[0].split()[-1]
+                tl2.append(("o%d%d/%d/%s" % (order[0], order[1], side, t), "schema %s" % hl.hx(t)))
+    _, twimpl, _ = ops.run_cmds("c10-twins", tl2, sides=("impl",))
+    dist["twin_definitions"] = 0
+    for cid, cmd in tl2:
+        if not cmd.startswith("schema "):
+            continue
+        run.count(); dist["twin_definitions"] += 1
+        side, t = int(cid.split("/")[1]), cid.split("/")[2]
+        sq, sql, idx = tviews[(side, t)]
+        out = (twimpl.get(cid) or ["?"])[0]
+        f = out.split(" ")
+        if len(f) < 2 or f[1] == "err":
+            continue
+        d = compare(sq, parse_dump(f[1]))
+        if d:
+            run.violation("%s (read %s a database with the same names and index texts but other column collations): %s" % (sql[:120], "after" if cid.startswith("o%d" % (1 - side)) else "before", d),
+                          {"kind": "history-dependent", "db": os.path.join(wd, "twin%d.db" % side), "table": t, "sql": sql, "indexes": idx, "diff": d, "read_order": cid.split("/")[0]})
+            break
     # the Coq model of db/schema.go (Model/Schema.v) on the same definitions: sqlite_master's texts, tokenized by the
     # implementation, parsed by the translated parser, interpreted by the model - against db.Schema()
     mcases, tl = [], []
